@@ -15,8 +15,8 @@ def item_params(f):
     for i, p in enumerate(f.params):
         if p["type"] == "%struct.cbor_item_t*":
             out.append((i, 0))
-        elif p["type"] == "%struct.cbor_item_t**":
-            out.append((i, 1))
+        elif p["type"] in ("%struct.cbor_item_t**", "%struct.cbor_pair*"):
+            out.append((i, 1))     # one load away from an item (a slot of a table / a key-value pair inside one)
     return out
 
 
@@ -121,9 +121,13 @@ def check_sccs(prog, eff):
             for name in comp:
                 f = prog.funcs[name]
                 pi, d0 = sigma[name]
+                from effects import table_targets as _tt
                 for c in f.calls():
-                    if c.callee in cs:
-                        gi, g0 = sigma[c.callee]
+                    targets = [c.callee] if c.callee else (_tt(prog, f, c) or [])
+                    for callee_ in targets:
+                        if callee_ not in cs:
+                            continue
+                        gi, g0 = sigma[callee_]
                         label, detail = "same", ""
                         if pi is None or gi is None:
                             label, detail = "unknown", "no item parameter"
@@ -138,7 +142,7 @@ def check_sccs(prog, eff):
                             pops = [p_ for p_ in f.calls("_cbor_stack_pop") if f.dominates(p_, c)]
                             if pops and not any(True for _ in f.calls("_cbor_stack_push")):
                                 label, detail = "pops", "preceded by _cbor_stack_pop at %s" % pops[0].loc()
-                        edges.append((name, c.callee, c, label, detail))
+                        edges.append((name, callee_, c, label, detail))
             # cycle detection on non-descending edges
             adj = {}
             for a, b, c, label, _ in edges:
